@@ -57,6 +57,13 @@ fn main() {
 		}
 		return;
 	}
+	if args[1] == "c17-probe" {
+		checks::c17::probe(&args[2]);
+		return;
+	}
+	if args[1] == "c17-one" {
+		std::process::exit(checks::c17::one(&args[2]));
+	}
 	if args[1] == "replay" {
 		std::process::exit(checks::replay_file(&args[2]));
 	}
